@@ -26,33 +26,43 @@ def named_product(**items: Sequence[Any]):
     return [dict(zip(names, res)) for res in product(*vals)]
 
 
-def _nested_learners(learner) -> dict[str, Any]:
-    """Learners held as attributes of `learner` (a DataSaver's wrapped learner)."""
+def _nested_learners(learner) -> list[Any]:
+    """Learners held by `learner`: as an attribute (a DataSaver's wrapped
+    learner) or in a list/tuple attribute (a BalancingLearner's children)."""
     from adaptive.learner.base_learner import BaseLearner
 
-    return {k: v for k, v in learner.__dict__.items() if isinstance(v, BaseLearner)}
+    found = []
+    for v in learner.__dict__.values():
+        if isinstance(v, BaseLearner):
+            found.append(v)
+        elif isinstance(v, (list, tuple)):
+            found.extend(x for x in v if isinstance(x, BaseLearner))
+    return found
 
 
-def _snapshot(learner) -> tuple[dict[str, Any], dict[str, Any]]:
+def _snapshot(learner) -> tuple[dict[str, Any], list[Any]]:
     # A deep copy of the complete state, *including* the pending points and
     # every private attribute (``__getstate__`` of most learners drops those).
     # The learned function is shared, it is never modified by a learner.
-    # A learner held as an attribute is snapshotted the same way and stays the
+    # A learner held by this one is snapshotted the same way and stays the
     # same object: ``copy.deepcopy`` would rebuild it through ``__getstate__``.
     nested = _nested_learners(learner)
     function = learner.__dict__.get("function")
     memo = {} if function is None else {id(function): function}
-    memo.update({id(v): v for v in nested.values()})
+    memo.update({id(v): v for v in nested})
+    # A bound method kept as an attribute (``BalancingLearner._ask_and_tell``)
+    # must stay bound to this very learner, not to a copy of it.
+    memo[id(learner)] = learner
     state = copy.deepcopy(learner.__dict__, memo)
-    return state, {k: _snapshot(v) for k, v in nested.items()}
+    return state, [(v, _snapshot(v)) for v in nested]
 
 
 def _restore(learner, snapshot) -> None:
     state, nested = snapshot
     learner.__dict__.clear()
     learner.__dict__.update(state)
-    for k, sub in nested.items():
-        _restore(learner.__dict__[k], sub)
+    for v, sub in nested:
+        _restore(v, sub)
 
 
 @contextmanager
